@@ -201,11 +201,8 @@ def gen_case(rng, prop):
             t2 = copy.deepcopy(t) if rng.random() < 0.4 else mutate_type(rng, t)
             if not L.s_valid(L.strip(t2)):
                 continue
-            nodes: list = []
-            if B._cost(nodes, L.s_nodes(L.strip(t), nodes), 32, {}) > B.MOD_BUDGET:
-                continue
-            nodes = []
-            if B._cost(nodes, L.s_nodes(L.strip(t2), nodes), 32, {}) > B.MOD_BUDGET:
+            # equality / hash of the type AND of every member type are queried (nested-member checks): each must be cheap
+            if not (affordable(t) and affordable(t2)):
                 continue
             if kind == "type":
                 return {"kind": "type", "a": desc_key(t), "b": desc_key(t2)}
@@ -223,6 +220,25 @@ def gen_case(rng, prop):
                     "b": {"type": desc_key(t2), "name": na if rng.random() < 0.7 else "z", "value": None}}
     v = gen_value(rng)
     return {"kind": "value", "a": v, "b": variant_value(rng, v)}
+
+
+def sub_types(t):
+    """The type description and every type nested in it (a delimited type hides its members from its own bit length set,
+    but they are still objects whose equality and layout the suite queries)."""
+    yield t
+    if t[0] in ("farr", "varr", "delim"):
+        yield from sub_types(t[1])
+    elif t[0] in ("struct", "union"):
+        for f in t[1]:
+            yield from sub_types(f)
+
+
+def affordable(t) -> bool:
+    for st in sub_types(t):
+        nodes: list = []
+        if B._cost(nodes, L.s_nodes(L.strip(st), nodes), 32, {}) > B.MOD_BUDGET:
+            return False
+    return True
 
 
 def const_value(rng, t):
